@@ -265,7 +265,36 @@ def edit(cell):
     return {'v': out, 'n': 3, 'states': 3, 'transitions': 3, 'traces': 1, 'nt': cell}
 
 
-PARTS = {'lists': lists, 'sense': sense, 'sock': sock, 'ode': ode_part, 'edit': edit}
+def default_isolation(cell):
+    """an empty list / no list is no wind - for EVERY shot, whatever was done to the default wind of another shot"""
+    import py_ballisticcalc as pb
+    U = pb.Unit
+    how, mph = cell
+    calc = make_calc()
+    dm = pb.DragModel(0.223, pb.TableG7)
+
+    def windless(kind):
+        w, a = pb.Weapon(U.Inch(2), U.Inch(0), U.MOA(5)), pb.Ammo(dm, U.FPS(2750))
+        return {'none': lambda: pb.Shot(w, a), 'empty': lambda: pb.Shot(w, a, winds=[]), 'setter': lambda: _set(pb.Shot(w, a, winds=[W((90, None))]))}[kind]()
+
+    def _set(shot):
+        shot.winds = None
+        return shot
+    ref = [key(r) for r in calc.fire(windless('none'), U.Yard(100), U.Yard(5)).trajectory]
+    before = windless('none')
+    a = windless(how)
+    wa = a.winds[0]
+    wa.velocity = U.MPH(mph)
+    wa.direction_from = U.Degree(90)
+    out = []
+    for name, shot in (('created before the edit', before), ('created after the edit (no winds)', windless('none')), ('created after the edit (empty list)', windless('empty')),
+                       ('whose winds were reset with the setter', windless('setter'))):
+        if [key(r) for r in calc.fire(shot, U.Yard(100), U.Yard(5)).trajectory] != ref:
+            out.append({'msg': f'the default wind of one windless shot ({how}) was set to {mph} mph; another windless shot {name} now flies in wind', 'key': None})
+    return {'v': out, 'n': 5, 'states': 5, 'transitions': 5, 'traces': 1, 'nt': cell}
+
+
+PARTS = {'lists': lists, 'sense': sense, 'sock': sock, 'ode': ode_part, 'edit': edit, 'default_isolation': default_isolation}
 
 
 def multisets(k):
@@ -283,4 +312,5 @@ def plan(tier):
         od = [c for c in od if c[0][1] != c[1][1]]
     ed = [[m, k] for m in multisets(2) + (m3[::9] if tier == 'quick' else m3) for k in ('swap_until', 'append', 'assign', 'zero_speed', 'redisplay_first_inch', 'redisplay_last_mile', 'redisplay_first_km')
           if any(x[0] != 'Z' for x in m)]
-    return [('lists', ls), ('sense', se), ('sock', sk), ('ode', od), ('edit', ed)]
+    di = [[how, mph] for how in ('none', 'empty', 'setter') for mph in (20, 5)]
+    return [('lists', ls), ('sense', se), ('sock', sk), ('ode', od), ('edit', ed), ('default_isolation', di)]
